@@ -167,6 +167,9 @@ pub fn sample_run(run: &RunSpec) -> Value {
 pub fn argv(run: &RunSpec) -> Vec<String> {
     let mut a: Vec<String> = vec!["test".into(), "-r".into(), "json".into()];
     a.extend(run.args.iter().cloned());
+    if run.cram_compat {
+        a.push("--cram-compat".into());
+    }
     if let Some(s) = run.cli_timeout_s {
         a.push("--timeout-seconds".into());
         a.push(s.to_string());
@@ -312,6 +315,14 @@ pub struct Clauses {
     pub exit: bool,
 }
 
+pub fn fmt_of(d: &DocModel) -> &'static str {
+    if d.script && d.format == Format::Markdown {
+        "markdown-cram-compat"
+    } else {
+        fmt_name(d.format)
+    }
+}
+
 fn fmt_name(f: Format) -> &'static str {
     match f {
         Format::Markdown => "markdown",
@@ -447,7 +458,7 @@ pub fn judge(run: &RunSpec, model: &RunModel, obs: &Observation, clauses: Clause
             Some(rs) => {
                 let mut known: BTreeMap<(String, String), ()> = BTreeMap::new();
                 for d in &docs {
-                    buckets.push(format!("doc:{}:{}", fmt_name(d.format), d.end.name()));
+                    buckets.push(format!("doc:{}:{}", fmt_of(d), d.end.name()));
                     let mut n_timeout = 0;
                     for (i, t) in d.seq.iter().enumerate() {
                         let key = (location(d), t.id.clone());
@@ -457,14 +468,14 @@ pub fn judge(run: &RunSpec, model: &RunModel, obs: &Observation, clauses: Clause
                         if (kinds.len() as u8) < t.min {
                             findings.push(Finding::new(
                                 "result-missing",
-                                format!("{what}/{}", fmt_name(d.format)),
+                                format!("{what}/{}", fmt_of(d)),
                                 format!("no result for test case {} (#{} of {}); model: {}; report: {:?}", t.id, i + 1, d.name, describe_doc(d), rs),
                             ));
                         }
                         if (kinds.len() as u8) > t.max || kinds.len() > 1 {
                             findings.push(Finding::new(
                                 "result-surplus",
-                                format!("{what}/{}/n={}", fmt_name(d.format), kinds.len().min(3)),
+                                format!("{what}/{}/n={}", fmt_of(d), kinds.len().min(3)),
                                 format!("{} result(s) for test case {} of {} (allowed {}..{}); report: {:?}", kinds.len(), t.id, d.name, t.min, t.max, rs),
                             ));
                         }
@@ -498,7 +509,7 @@ pub fn judge(run: &RunSpec, model: &RunModel, obs: &Observation, clauses: Clause
                                 let exp: Vec<&str> = t.classes.iter().map(|c| c.name()).collect();
                                 findings.push(Finding::new(
                                     "result-kind",
-                                    format!("expected={}/got={}/{}/{rel}", exp.join("|"), c.name(), fmt_name(d.format)),
+                                    format!("expected={}/got={}/{}/{rel}", exp.join("|"), c.name(), fmt_of(d)),
                                     format!("test case {} (#{} of {}): reported `{k}`, model says {}; model: {}; report: {:?}", t.id, i + 1, d.name, exp.join("|"), describe_doc(d), rs),
                                 ));
                             }
@@ -508,7 +519,7 @@ pub fn judge(run: &RunSpec, model: &RunModel, obs: &Observation, clauses: Clause
                         if n_timeout == 0 {
                             findings.push(Finding::new(
                                 "result-kind",
-                                format!("expected=timeout/got=none/{}/timed-out", fmt_name(d.format)),
+                                format!("expected=timeout/got=none/{}/timed-out", fmt_of(d)),
                                 format!("document {} exceeded its limit but no test case is reported as timed out; report: {:?}", d.name, rs),
                             ));
                         }
@@ -695,7 +706,7 @@ pub fn describe(docs: &[DocModel]) -> String {
 pub fn shape_of(docs: &[DocModel]) -> u64 {
     let mut s = String::new();
     for d in docs {
-        s.push_str(fmt_name(d.format));
+        s.push_str(fmt_of(d));
         s.push_str(d.end.name());
         if let DocEnd::Skipped { by } = d.end {
             s.push_str(&format!("@{by}"));
